@@ -34,6 +34,9 @@ func WriteCorpus() {
 	chain("C01/field-sensitive-pairs", "sprintf", "sprint")
 	chain("C02/valerrfall", "valerrfall")
 	chain("C03/stringsmap", "stringsmap")
+	chain("C03/readall", "readall")
+	chain("C03/syncmap", "syncmap")
+	chain("C03/urlescape", "urlescape")
 	write("C03/crash-base64rt-jsonroundtrip", (&gen.Batch{Chains: []gen.Chain{{ID: 1, Links: []string{"base64rt"}}, {ID: 2, Links: []string{"jsonroundtrip"}}}}).Files(),
 		"backtrace with summarize-on-demand: true and the sinks as backtrace points crashes on this program")
 	for _, f := range []string{"iface2ifacenarrow", "iocopywriterto"} {
